@@ -8,7 +8,7 @@ from collections import Counter
 import asyncstdlib as A
 
 from ..loop import CTX, drive, Suspend
-from ..probes import JobItem, Item, canon, SrcState, make_source, SyncSrc, Plan
+from ..probes import JobItem, LenientItem, Item, canon, SrcState, make_source, SyncSrc, Plan
 from ..tools import drop_stdlib_repolls
 
 ID = "C16"
@@ -35,6 +35,7 @@ RULE += (' Also: class sources without aclose.')
 RULE += (' Also: sources that set themselves up in __aiter__ and re-iterables handing out a separate iterator.')
 RULE += (' Also: keys whose comparisons answer with truthy / falsy objects instead of bools.')
 RULE += (' Also: without a key function, items that happen to be awaitable jobs are the keys as they are (never awaited).')
+RULE += (' Also: wildcard records (items equal to anything that is not an item) among the items.')
 ASSUMPTIONS = ["itertools.groupby of the running interpreter is the reference", "keys with reflexive equality only"]
 EXHAUSTIVE_SUBSPACES = "all operation sequences starting with 'adv' of length <= 5 (thorough: 6) over {adv, g-1, g-2, g0} on 12 fixed inputs"
 EXHAUSTIVE = {"quick": False, "thorough": False}
@@ -71,6 +72,8 @@ def cases(tier, seed, shard, nshards):
                 "flav": rng.choice(["list", "async_gen", "async_class", "sync_iter", "async_class_bare", "async_class_lazy", "async_iterable"]), "susp": rng.choice([0, 0, 1])}
         if case["key"] is None and rng.random() < 0.5:
             case["jobs"] = True
+        elif rng.random() < 0.15:
+            case["lenient_items"] = True
         if rng.random() < 0.06:
             # some items ARE None; grouped by equality (no key) or by a key that can take them
             case["keys"] = [k if rng.random() < 0.55 else -1 for k in keys]
@@ -234,8 +237,10 @@ def gb_side(case, sync, fault=None, fnfl=None, cont=False):
     # (key -1 stands for an item that IS ``None`` - a value like any other, also as the first item of a run)
     # (with no key function the ITEMS are the keys - also when some of them happen to be awaitable jobs: payload)
     jobs = bool(case.get("jobs")) and kname is None
-    st = SrcState(0, [(JobItem if jobs and i % 2 else Item)(k, (0, i)) if k != -1 else None for i, k in enumerate(keys)],
-                  plan, log=True)
+    # (... or wildcard records: items equal to anything that is not an item)
+    lenient = bool(case.get("lenient_items"))
+    st = SrcState(0, [(JobItem if jobs and i % 2 else LenientItem if lenient and i % 2 == 0 else Item)(k, (0, i))
+                      if k != -1 else None for i, k in enumerate(keys)], plan, log=True)
     fs = None
     impl = _key_impl(kname)
     if case.get("eqfault") is not None:
